@@ -191,7 +191,8 @@ def run_spec(spec):
             raise
         except Exception:  # noqa: scripts that do not load are not C01's subject (C02/C06/C11)
             return None
-        t1 = bb.dumps(p)
+        bb.dumps(p)
+        t1 = bb.dumps(p)        # (the text of a *second* serialisation of the same object: it must be as good as the first)
         p1 = bb.loads(t1)
         t2 = bb.dumps(p1)
         p2 = bb.loads(t2)
@@ -277,6 +278,7 @@ def concrete_check(spec, vals, w=None):
     cur = p
     for gen_no in (1, 2):
         try:
+            blackbird.dumps(cur)
             t = blackbird.dumps(cur)
         except Exception as e:  # noqa
             return dict(base, what="generation %d: dumps raises %s" % (gen_no, type(e).__name__), observed="%s: %s" % (type(e).__name__, str(e)[:200]), expected="a script")
